@@ -399,8 +399,8 @@ Proof.
     + intros b j g g' H1 H2. rewrite Hk in H1, H2. apply in_app_or in H1; apply in_app_or in H2.
       destruct H1 as [H1|H1], H2 as [H2|H2].
       * eapply si_kg0; eassumption.
-      * exfalso. destruct (Hnew _ _ _ H2) as [Hn2 _]. eapply in_jlook; eassumption.
-      * exfalso. destruct (Hnew _ _ _ H1) as [Hn1 _]. eapply in_jlook; eassumption.
+      * exfalso. destruct (Hnew _ _ _ H2) as [Hn2 _]. exact (in_jlook _ _ _ _ H1 Hn2).
+      * exfalso. destruct (Hnew _ _ _ H1) as [Hn1 _]. exact (in_jlook _ _ _ _ H2 Hn1).
       * eapply Hfun; eassumption.
     + intros b j g Hin. rewrite Hk in Hin. rewrite Hg, Hb. apply in_app_or in Hin. destruct Hin as [Hin|Hin].
       * apply si_refs0 in Hin. exact Hin.
